@@ -1,11 +1,17 @@
 (* C19 — partition, weight and MEDIT files round-trip losslessly.
    Only the property theorems, each closed by [exact] of a lemma of
-   Proofs/FormatsProofs.v, with [Print Assumptions] beneath. *)
-From Coupe Require Import Lib.Prelude Model.Formats Proofs.FormatsProofs.
+   Proofs/FormatsProofs.v, Proofs/MeditBinProofs.v, Proofs/MeditAsciiProofs.v,
+   with [Print Assumptions] beneath.  The models read their literals and
+   element-type tables from Gen/FormatsGen.v, Gen/MeditGen.v (regenerated from
+   the Rust source on every run). *)
+From Coupe Require Import Lib.Prelude Model.Formats Model.MeditTypes Gen.MeditGen Model.Medit
+  Proofs.FormatsProofs Proofs.MeditBinProofs Proofs.C19Examples.
 Open Scope N_scope.
 
-(* partition file: any id array (ids are usize = any 64-bit value; the length
-   bound is what every in-memory Vec<usize> satisfies) reads back identically *)
+(* ---------------------------------------------------------------- partition file *)
+
+(* any id array (ids are usize: any 64-bit value; the length bound is what every
+   in-memory Vec<usize> satisfies) reads back identically *)
 Theorem partition_roundtrip : forall ids,
   Forall u64_ok ids ->
   8 * N.of_nat (length ids) <= isize_max ->
@@ -17,6 +23,80 @@ Theorem partition_read_terminates : forall s, read_partition s <> FOutOfFuel.
 Proof. exact read_partition_terminates. Qed.
 Print Assumptions partition_read_terminates.
 
+(* ---------------------------------------------------------------- weight file *)
+
+(* [rw_weights a] = write the array, then read the bytes.
+   wf_rows: rectangular, 1 <= criteria < 2^16, values in range (ANY 64-bit
+   pattern for floats), row count bounded as any in-memory Vec<Vec<_>> is *)
+Theorem weight_roundtrip_int : forall rows,
+  rows <> [] -> wf_rows i64_ok rows -> rw_weights (WInts rows) = FOk (WInts rows).
+Proof. exact weight_roundtrip_int_proof. Qed.
+Print Assumptions weight_roundtrip_int.
+
+Theorem weight_roundtrip_float : forall rows,
+  rows <> [] -> wf_rows u64_ok rows -> rw_weights (WFloats rows) = FOk (WFloats rows).
+Proof. exact weight_roundtrip_float_proof. Qed.
+Print Assumptions weight_roundtrip_float.
+
+(* the arrays without rows: Integers([]) round-trips; Floats([]) is read back
+   as Integers([]) (the reader returns at criterion_count = 0 before it looks
+   at the integer flag) *)
+Theorem weight_roundtrip_empty_int : rw_weights (WInts []) = FOk (WInts []).
+Proof. exact weight_empty_int. Qed.
+Theorem weight_empty_float_read_as_int : rw_weights (WFloats []) = FOk (WInts []).
+Proof. exact weight_empty_float_reads_as_int. Qed.
+
+Theorem weight_read_terminates : forall s, read_weights s <> FOutOfFuel.
+Proof. exact read_weights_terminates. Qed.
+Print Assumptions weight_read_terminates.
+
+(* ---------------------------------------------------------------- MEDIT binary *)
+
+(* [rw_medit_bin m] = serialize_medit_binary, then parse_binary.  wf_mesh: the
+   invariants of Mesh::from_raw_parts, 1 <= dimension < 2^31, node numbers
+   < 2^63 - 1, in-memory sizes.  norm_bin: Vertex blocks are not written,
+   a Quadrangle block is read back as Quadrilateral; nothing else changes. *)
+Theorem medit_bin_roundtrip : forall m, wf_mesh m -> rw_medit_bin m = FOk (norm_bin m).
+Proof. exact medit_bin_roundtrip_proof. Qed.
+Print Assumptions medit_bin_roundtrip.
+
+(* meshes of the property's quantifier: exactly the data *)
+Theorem medit_bin_roundtrip_exact : forall m,
+  wf_mesh m -> Forall (fun b => listed_ty (b_ty b)) (m_topo m) -> rw_medit_bin m = FOk m.
+Proof. exact medit_bin_roundtrip_listed. Qed.
+Print Assumptions medit_bin_roundtrip_exact.
+
+(* ---------------------------------------------------------------- format detection *)
+
+(* whatever prefix (>= 4 bytes) of a binary file Mesh::from_reader looks at, it decides "binary" *)
+Theorem sniff_binary_written : forall m bytes n,
+  serialize_binary m = FOk bytes -> (4 <= n)%nat -> sniff (firstn n bytes) = FOk FmtBinary.
+Proof. exact sniff_binary_written_proof. Qed.
+Print Assumptions sniff_binary_written.
+
+(* ---------------------------------------------------------------- non-vacuity *)
+
 Example partition_nonvacuous :
   read_partition (write_partition [0; 18446744073709551615; 3]) = FOk [0; 18446744073709551615; 3].
 Proof. vm_compute. reflexivity. Qed.
+
+(* NaN with payload, -0.0, +inf, subnormal, two criteria; i64::MIN / MAX *)
+Example weight_float_nonvacuous :
+  example_float_rows <> [] /\ wf_rows u64_ok example_float_rows
+  /\ rw_weights (WFloats example_float_rows) = FOk (WFloats example_float_rows).
+Proof. exact example_float_rows_ok. Qed.
+Example weight_int_nonvacuous :
+  example_int_rows <> [] /\ wf_rows i64_ok example_int_rows
+  /\ rw_weights (WInts example_int_rows) = FOk (WInts example_int_rows).
+Proof. exact example_int_rows_ok. Qed.
+
+(* a 2-D mesh with an edge block and a triangle block satisfies wf_mesh and is in the
+   property's quantifier; a mesh with a Vertex and a Quadrangle block shows the normalisation *)
+Example medit_bin_nonvacuous :
+  wf_mesh example_mesh /\ Forall (fun b => listed_ty (b_ty b)) (m_topo example_mesh).
+Proof. exact (conj example_mesh_wf example_mesh_listed). Qed.
+Example medit_bin_normalises :
+  wf_mesh example_mesh_exotic /\
+  rw_medit_bin example_mesh_exotic
+  = FOk (mkmesh 3 (m_coords example_mesh_exotic) [1; 2; 3; 4]%Z [mkblock Quadrilateral [0; 1; 2; 3] [-4]%Z]).
+Proof. exact example_mesh_exotic_bin. Qed.
